@@ -25,7 +25,7 @@ ANCHORS = ("Quantity.convert", "Quantity.equiv_amount", "Unit._get_factor",
 def conv_steps(rng, x, s1, s2, s3, kinds=("D", "F", "int", "fl", "s", "SD")):
     e, kind = enc_amount(rng, x, kinds)
     steps = [
-        {"id": "q", "k": "q", "e": Q(e, s1)},
+        {"id": "q", "k": "q", "e": Q(e, s1), "_x": F(x)},
         {"id": "r", "k": "r", "e": M(V("q"), "convert", U(s2))},
         {"k": "tu", "e": U(s2)},
         {"k": "eq", "e": OP("==", V("r"), V("q"))},
@@ -61,6 +61,13 @@ def judge_conv(chk, w, wid, obs, steps, s1, s2, s3, kind, plan=None):
         return
     chk.case((wid, str(val(q)), s1, s2, s3), nontrivial=(s1 != s2))
     chk.count("kind|" + kind)
+    x_in = steps[0].get("_x") if steps else None
+    if x_in is not None and val(q) != stored(w, x_in, s1):
+        # the source quantity itself: only a unit with a quantum of its own
+        # type may round it (a subclass does not inherit its parent's)
+        viol("constructed from %s, holds %s, expected %s" %
+             (x_in, val(q), stored(w, x_in, s1)), "value")
+        return
     f1, f2 = w.units[s1].factor, w.units[s2].factor
     xs = val(q)
     exact = xs * f1 / f2
